@@ -400,6 +400,13 @@ func (c S3ApiController) GetActions(ctx *fiber.Ctx) error {
 				})
 		}
 
+		// the attributes asked for are part of the request the backend gets
+		// (a backend that forwards the request cannot do without them)
+		objAttrs := make([]types.ObjectAttributes, 0, len(attrs))
+		for attr := range attrs {
+			objAttrs = append(objAttrs, types.ObjectAttributes(attr))
+		}
+
 		res, err := c.be.GetObjectAttributes(ctx.Context(),
 			&s3.GetObjectAttributesInput{
 				Bucket:           &bucket,
@@ -407,6 +414,7 @@ func (c S3ApiController) GetActions(ctx *fiber.Ctx) error {
 				PartNumberMarker: &partNumberMarker,
 				MaxParts:         &maxPartsParsed,
 				VersionId:        &versionId,
+				ObjectAttributes: objAttrs,
 			})
 		if err != nil {
 			hdrs := []utils.CustomHeader{}
